@@ -1060,8 +1060,19 @@ def Tree.style (t : Tree) (fr to : Pos) (arg : StyleArg) (ts : Ticket) (vv : VV)
 
 /-! ### index ↔ position ↔ path -/
 
+/-- the tree WITH the repair hooks/fix-c19-findpos-after-element.patch (74247a0f): an index right before a text node that is not the
+    first visible child names what precedes it (the previous visible sibling) as left sibling; `false` = the tree before it,
+    where such an index became (that text piece's id, offset 0) - read as "after the piece that starts here", a place that
+    depends on how far the replica has split the text (Props/C19.lean `findpos_after_element_*`) -/
+def fixFindPosAfterElement : Bool := true
+
+/-- the visible sibling right before `n` -/
+def prevIn (n : Ptr) : List Ptr → Option Ptr → Option Ptr
+  | [], _ => none
+  | c :: r, prev => if c == n then prev else prevIn n r (some c)
+
 /-- `Tree.FindPos(index)` -/
-def Tree.findPos (t : Tree) (index : Int) : Except Err Pos :=
+def Tree.findPosW (fix : Bool) (t : Tree) (index : Int) : Except Err Pos :=
   match findTreePos t.fuel t t.root index with
   | .error e => .error e
   | .ok ⟨node, offset⟩ =>
@@ -1070,6 +1081,13 @@ def Tree.findPos (t : Tree) (index : Int) : Except Err Pos :=
       | none => .error .panic
       | some par =>
         let first := (t.get par).children.find? (fun c => !t.removed c)
+        if fix && offset == 0 && first != some node then
+          match prevIn node (t.kids par false) none with
+          | none => .ok ⟨(t.get par).id, (t.get par).id⟩
+          | some pv =>
+            let lid := (t.get pv).id
+            .ok ⟨(t.get par).id, ⟨lid.createdAt, lid.offset + (if t.isText pv then (t.get pv).value.length else 0)⟩⟩
+        else
         let leftNode := if first == some node && offset == 0 then par else node
         let lid := (t.get leftNode).id
         if offset < 0 then .error .panic else
@@ -1084,6 +1102,8 @@ def Tree.findPos (t : Tree) (index : Int) : Except Err Pos :=
         | some l =>
           let lid := (t.get l).id
           .ok ⟨(t.get node).id, ⟨lid.createdAt, lid.offset + offset.toNat⟩⟩
+
+def Tree.findPos (t : Tree) (index : Int) : Except Err Pos := t.findPosW fixFindPosAfterElement index
 
 /-- `Node.HasTextChild` -/
 def Tree.hasTextChild (t : Tree) (n : Ptr) : Bool :=
